@@ -10,7 +10,7 @@ TRUSTED = ["modelled, not verified: rate-key resolution is taken from data/regim
            "regime/addon normalisers and scenarios do not take part in the arithmetic and are not modelled; "
            "float64 arithmetic of num is covered by C05 inside the 2^52 domain, which the generator enforces and counts"]
 FIG = ["lines", "sum", "discount", "charge", "tax_included", "total", "tax", "total_with_tax", "payable", "advances", "due",
-       "discount rows", "charge rows", "advance rows", "due dates", "tax categories", "taxes.sum"]
+       "discount rows", "charge rows", "advance rows", "due dates", "tax categories", "taxes.sum", "rounding"]
 
 
 def first_diff(a, b):
@@ -105,7 +105,21 @@ def witness_docs():
     b = _base_doc()
     b["lines"] = [{"quantity": "1000", "item": {"name": "x", "price": "0.00"},
                    "breakdown": [{"quantity": "0.5", "item": {"name": "y", "price": "0.01"}}]}]
-    return [a, b]
+    out = [a, b]
+    # findings/C01.json C01-conversion-rounded-at-source-decimals (repaired): a price in a currency with fewer decimals than
+    # the document's, converted by an exchange rate: JPY 1550 x 0.0062 = 9.61 EUR (was 10.00: the product was rounded
+    # to the decimals of the JPY amount first), 80 -> 0.50 (was 0.00), 1 -> 0.01 (was 0.00); USD -> KWD (2 -> 3 decimals)
+    for cur, frm, rate, prices in (("EUR", "JPY", "0.0062", ("1550", "80", "1", "-1550")), ("KWD", "USD", "0.875967", ("739.49", "0.05"))):
+        for rule in (cg.PRECISE, cg.CURRENCY):
+            for p in prices:
+                d = _base_doc()
+                d["currency"] = cur
+                d["tax"] = {"rounding": rule}
+                d["lines"] = [{"quantity": "1", "item": {"name": "x", "price": p, "currency": frm},
+                               "taxes": [{"cat": "VAT", "rate": "standard"}]}]
+                d["exchange_rates"] = [{"from": frm, "to": cur, "amount": rate}]
+                out.append(d)
+    return out
 
 
 def _clamp_rows(rng, rows, keep):
